@@ -61,9 +61,22 @@ async fn rig_case(ty: &str, transport: &str, prefix: &str, how: &str) -> Finding
             _listener = Some(l);
         }
         _ => {
-            let ep = match sock.bind(&rig::bind_endpoint(transport)).await {
-                Ok(e) => e,
-                Err(e) => bail!("bind: {e}"),
+            // explicit harness-managed ports: a later successful connect cannot be somebody
+            // else's listener on a recycled ephemeral port
+            let mut ep = None;
+            let mut last_err = String::new();
+            for _ in 0..25 {
+                match sock.bind(&rig::explicit_endpoint(transport)).await {
+                    Ok(e) => {
+                        ep = Some(e);
+                        break;
+                    }
+                    Err(e) => last_err = e,
+                }
+            }
+            let ep = match ep {
+                Some(e) => e,
+                None => bail!("bind: {last_err}"),
             };
             bound = Some(ep.clone());
             match prefix {
